@@ -419,9 +419,22 @@ async def error_case(ctx, transport: str, step: int, err: bytes, with_fields: bo
         peer.reply_hook = hook
 
         http_status = [200, 470, 400, 405][idx % 4]
+        # a FAULT first (half of the M2 cells): an earlier attempt on the same discovery object whose caller gave up while the
+        # accessory was still busy with its M1. A sequential accessory answers that abandoned request first - with an ordinary,
+        # successful M2 - if the controller sends the next request on the same connection; the reply to the NEW request is the
+        # error under test. The stale reply belongs to nobody.
+        slow_first = step == 2 and idx % 2 == 0
+        stale = {"conn": None, "peer": SetupPeer(rng, code, w.accessory.identity.pairing_id)}
 
         def responder(conn, req):
             if req["target"] == "/pair-setup" and not conn.secure:
+                if slow_first and stale["conn"] is None:
+                    stale["conn"] = conn
+                    stale["reply"] = stale["peer"].handle(reftlv.decode(req["body"]))
+                    return True
+                if slow_first and stale["conn"] is conn and "reply" in stale:
+                    conn.send(conn.http(200, reftlv.encode(stale.pop("reply")), "application/pairing+tlv8"))
+                    ctx.count("stale_replies_sent_ahead_of_the_error")
                 reply = peer.handle(reftlv.decode(req["body"]))
                 # an error reply travels with an HTTP 4xx status on many accessories
                 code = http_status if any(t == 7 for t, _ in reply) else 200
@@ -432,6 +445,12 @@ async def error_case(ctx, transport: str, step: int, err: bytes, with_fields: bo
         w.accessory.script_for = lambda h, a: simnet.ConnScript(responder=responder)
         disc = IpDiscovery(w.controller, w.description(w.hosts))
         try:
+            if slow_first:
+                try:
+                    await asyncio.wait_for(disc.async_start_pairing("alias"), 2.0)
+                except Exception:  # noqa: BLE001 - the caller's own timeout: the abandoned attempt
+                    ctx.count("ip_setup_attempts_abandoned_by_caller")
+                await asyncio.sleep(0.5)  # the user tries again a moment later (an IMMEDIATE retry is refused: C08's subject)
             try:
                 finish = await asyncio.wait_for(disc.async_start_pairing("alias"), 60)
                 result = await asyncio.wait_for(finish(code), 60)
